@@ -3,7 +3,7 @@
  1. applied to a scratch worktree (/tmp/bwsweep/wt), compiled,
  2. run against the repository's own suite (mutants the suite kills are set aside),
  3. for survivors: the quick checks mapped to the mutated file run against the mutated CLI binary.
-Usage: tools/mutation_sweep.py [max_mutants] [seed]    -> writes /verif/sweep/report.json and prints a summary."""
+Usage: tools/mutation_sweep.py [max_mutants] [seed]    -> writes /verif/sweep/report_seed<seed>.json and prints a summary."""
 import json, os, random, re, subprocess, sys, time
 
 HERE = os.path.dirname(os.path.dirname(os.path.abspath(__file__)))
@@ -121,12 +121,12 @@ def main():
         rec["checks_run"] = CHECKS[f]
         results.append(rec)
         print(f"[{n+1}/{len(picked)}] {f}:{i+1} `{old.strip()[:60]}` -> `{new.strip()[:60]}`: {rec['status']} {caught}", flush=True)
-        json.dump({"head": head, "results": results, "elapsed_s": time.time() - t0}, open(os.path.join(OUT, "report.json"), "w"), indent=1)
+        json.dump({"head": head, "results": results, "elapsed_s": time.time() - t0}, open(os.path.join(OUT, f"report_seed{SEED}.json"), "w"), indent=1)
     summary = {}
     for r in results:
         summary[r["status"]] = summary.get(r["status"], 0) + 1
     print("SUMMARY", summary)
-    json.dump({"head": head, "summary": summary, "results": results, "elapsed_s": time.time() - t0}, open(os.path.join(OUT, "report.json"), "w"), indent=1)
+    json.dump({"head": head, "summary": summary, "results": results, "elapsed_s": time.time() - t0}, open(os.path.join(OUT, f"report_seed{SEED}.json"), "w"), indent=1)
     sh(f"git -C /repo worktree remove --force {WT}")
 
 
